@@ -80,11 +80,14 @@ let step _ cs os =
      let impl_res = Stdlib.List.filter_map (fun ((t, q), st) ->
          if st = Abort_ then None else Some ((n_of_int t, n_of_int q), st = Ok_)) res in
      let impl = { W.o_wire = wire; o_garbage = garbage; o_res = impl_res; o_eof = eof } in
-     if not (W.c05_wf case) then out := "BAD\tside=impl\tclause=sched_wf(probe frame before a non-probe frame, or frame shorter than a header)" :: !out
+     (* the oracle reads only the endpoint, the intended lengths and the probe
+        boundary of the case: it does not depend on the witness schedule *)
+     if not (W.ok_C05 case impl) then out := "BAD\tside=impl\tclause=ok_C05" :: !out;
+     if not (W.c05_wf case) then
+       out := "DIFF\tfields=no-witness-schedule(a probe frame precedes another writer's frame, or a frame is shorter than a header)" :: !out
      else begin
        let model = W.model_C05 case in
        if not (W.ok_C05 case model) then out := "BAD\tside=model\tclause=ok_C05(model)=false" :: !out;
-       if not (W.ok_C05 case impl) then out := "BAD\tside=impl\tclause=ok_C05" :: !out;
        let diffs = ref [] in
        if not (W.segs_eqb model.W.o_wire wire) then
          diffs := ("wire[model=" ^ String.concat "," (Stdlib.List.map seg_str model.W.o_wire) ^ "]") :: !diffs;
